@@ -198,6 +198,45 @@ def fsmApply (n : Node) (c : Cmd) : Node :=
 
 def write (n : Node) (c : Cmd) : Node := fsmApply (appendEntry n c) c
 
+/-- `fsmApply` together with what the caller of `raft.Apply` gets back: `true` = the FSM's
+response carries an error (for a LOAD: `Swap` returned one). Statement-level errors of an
+execute request travel inside the per-statement results and are not modelled. -/
+def fsmApplyR (n : Node) (c : Cmd) : Node × Bool :=
+  match c with
+  | .load d =>
+    let r := swapSteps.foldl (swapStep (some d)) { n := { n with applied := n.applied + 1 } }
+    ({ r.n with fp := false, fullNeeded := true }, r.failed)
+  | .loadBad =>
+    let r := swapSteps.foldl (swapStep none) { n := { n with applied := n.applied + 1 } }
+    ({ r.n with fullNeeded := true }, r.failed)
+  | _ => (fsmApply n c, false)
+
+/-- a write request as the client sees it: the node afterwards, and whether an error came back -/
+def writeR (n : Node) (c : Cmd) : Node × Bool := fsmApplyR (appendEntry n c) c
+
+/-! #### a node whose own I/O fails while it applies a LOAD entry
+`CommandProcessor.Process`, case LOAD, has four exits (`loadExits`, compared with the source):
+the scratch file cannot be created, cannot be written, `Swap` fails, or all is well. The first
+two leave the database untouched and return an error response — no panic, the FSM goes on to
+the next entry. `fsmApply` asks for a full snapshot for every LOAD entry regardless. -/
+
+inductive LoadExit where
+  | tempCreateFails | tempWriteFails | swapFails | done
+deriving Repr, DecidableEq
+
+/-- (mutated, response) of the exit, as in the source's return statement -/
+def LoadExit.code : LoadExit → String
+  | .tempCreateFails => "false,error"
+  | .tempWriteFails => "false,error"
+  | .swapFails => "false,error"
+  | .done => "true,ok"
+
+def loadExits : List LoadExit := [.tempCreateFails, .tempWriteFails, .swapFails, .done]
+
+/-- this node's scratch-file I/O fails while it applies LOAD entry `c` (exits 1 and 2) -/
+def writeScratchFails (n : Node) (c : Cmd) : Node × Bool :=
+  ({ appendEntry n c with applied := n.applied + 1, fullNeeded := true }, true)
+
 /-! ### snapshot micro-steps (order = Gen/StoreOrder facts) -/
 
 /-- `fsmSnapshot`: checkpoint the WAL into the database file (TRUNCATE) -/
@@ -265,6 +304,29 @@ def snapFingerprint (n : Node) : Node := sinkStep true n .afterClose
 
 /-- the whole of `Sink.Close` -/
 def sinkClose (finalizerOk : Bool) (n : Node) : Node := sinkCloseSteps.foldl (sinkStep finalizerOk) n
+
+/-! #### who READS `fullNeeded`
+`fsmSnapshot` asks `snapshotDueNext()` and takes the full branch when a full snapshot is due;
+`Sink.Close` (step `.refuseIncrementalIfFullDue`) refuses to install an INCREMENTAL snapshot
+while a full one is due — the case of a LOAD applied while an incremental snapshot, begun
+before it, is still being persisted. -/
+
+inductive SnapKind where
+  | full | incremental
+deriving Repr, DecidableEq
+
+def snapKindCode : List String := ["s.snapshotDueNext", "if dueNext.IsFull()"]
+
+/-- `fsmSnapshot`'s branch -/
+def snapKindDue (n : Node) : SnapKind := if n.fullNeeded then .full else .incremental
+
+/-- the meaning of step `.refuseIncrementalIfFullDue` -/
+def sinkRefuses (kind : SnapKind) (n : Node) : Bool := kind == .incremental && n.fullNeeded
+
+/-- `Sink.Close` of a snapshot of the given kind; `true` = refused: the temp directory is
+removed, nothing is installed, the requirement stays -/
+def sinkCloseK (kind : SnapKind) (finalizerOk : Bool) (n : Node) : Node × Bool :=
+  if sinkRefuses kind n then ({ n with snapTmp := none }, true) else (sinkClose finalizerOk n, false)
 
 /-- raft `compactLogs`: keep `trailing` entries behind the snapshot -/
 def snapCompact (n : Node) (trailing : Nat) : Node :=
@@ -349,6 +411,13 @@ def openNode (n : Node) : Node :=
       if n.fp && n.dbFileOk then openFast (openPrep n) i else openRebuild (openPrep n)
     | none => openRebuild (openPrep n)
 
+/-- a node that joins the cluster of `leader` afterwards, with nothing of its own: raft brings
+it the leader's newest installed snapshot (`fsmRestore`) and the log entries after it — `Open`'s
+rebuild path over the leader's durable snapshot store and log, with no local database file and
+no fingerprint. -/
+def joinFrom (leader : Node) : Node :=
+  openNode { crash leader with fp := false, dbFile := [], dbFileOk := true, peersFile := none }
+
 /-- clean `Close`: optional snapshot, then everything stops -/
 def closeNode (n : Node) (snapOnClose : Bool) : Node :=
   crash (if snapOnClose then snapshot n 0 else n)
@@ -358,7 +427,9 @@ statements: `p:k:v` put, `i:k:v` ins, `d:k` del, `a:k:x` add, `b` bad, `t:k=v;k=
 `reset`                         → `ok`   (fresh node, empty kv table)
 `save` / `restore`              → `ok`   remember / return to a state (crash-image exploration)
 `exec <0|1> <stmt,stmt,…>`      → `ok`
-`load <k=v;k=v|->`              → `ok` ; `loadbad` → `ok` ; `boot <rows>` → `ok`
+`load <k=v;k=v|->` / `loadbad`  → `ok|rejected` (what the client gets) ; `boot <rows>` → `ok`
+`join`                          → the table of a node that joins now (`joinFrom`)
+`loadiofail <rows>`             → `rejected`  this node's scratch-file I/O fails applying the LOAD
 `snap <trailing>`               → `ok`   complete snapshot
 `s-ckpt` `s-persist` `s-install` `s-fp` `s-compact <trailing>` → `ok`   snapshot micro-steps
 `crash` → `ok` ; `close <0|1>` → `ok` ; `open` → `ok|open-failed` ; `peers <id@addr[/N];…>` → `ok` ; `nopeers` → `ok`
@@ -428,9 +499,14 @@ def step (d : DState) (line : String) : DState × String :=
     | none => (d, "bad-op")
   | ["load", rows] =>
     match parseRows rows with
-    | some r => if n.up then upd (write n (.load r)) else (d, "bad-op")
+    | some r => if n.up then ({ d with n := (writeR n (.load r)).1 }, if (writeR n (.load r)).2 then "rejected" else "ok") else (d, "bad-op")
     | none => (d, "bad-op")
-  | ["loadbad"] => if n.up then upd (write n .loadBad) else (d, "bad-op")
+  | ["loadbad"] => if n.up then ({ d with n := (writeR n .loadBad).1 }, if (writeR n .loadBad).2 then "rejected" else "ok") else (d, "bad-op")
+  | ["loadiofail", rows] =>
+    match parseRows rows with
+    | some r => if n.up then ({ d with n := (writeScratchFails n (.load r)).1 }, "rejected") else (d, "bad-op")
+    | none => (d, "bad-op")
+  | ["join"] => if n.up then (d, showDb (joinFrom n).live) else (d, "bad-op")
   | ["boot", rows] =>
     match parseRows rows with
     | some r => if n.up then upd (boot n r) else (d, "bad-op")
